@@ -847,6 +847,7 @@ def reject_cases(tier, route=None):
                     out.append({"base": b_k, "before": n_before, "mal": "missing parameter", "slot": slot})
                     out.append({"base": b_k, "before": n_before, "mal": "renamed parameter", "slot": slot})
                 out.append({"base": b_k, "before": n_before, "mal": "extra parameter"})
+                out.append({"base": b_k, "before": n_before, "mal": "caller reuses its dictionary"})
     # malformed inputs of the other constructors
     for what in ("duplicate identifier", "int identifier", "float identifier", "None identifier"):
         for entry in ("from_pytorch", "from_dataframe"):
@@ -868,6 +869,28 @@ def run_reject(case, tmp=None):
         finally:
             shutil.rmtree(tmp, ignore_errors=True)
     names, shapes = REJECT_BASES[case["base"]]
+    if case["mal"] == "caller reuses its dictionary":
+        # (not a malformed addition) ONE working dictionary, holding plain numbers / lists, is filled again and handed over for
+        # each individual, and scribbled over afterwards: every identifier keeps the values it was added with
+        ip = IP()
+        ref = new_ref([], names, [tuple(s) for s in shapes])
+        work = {}
+        for k in range(case["before"]):
+            d, rv = _valid_entry(names, shapes, k)
+            for n in names:
+                work[n] = d[n]  # same dict object, new values (lists are new objects)
+            ip.add_individual_parameters(f"p{k}", work)
+            ref["ids"].append(f"p{k}")
+            ref["vals"][f"p{k}"] = rv
+            # the caller goes on using ITS dictionary: keys re-bound to other objects (the objects handed over are not modified
+            # in place - the library keeps the caller's lists by reference on the pinned tree, and nothing in C16 forbids that)
+            for n in names:
+                work[n] = [-99.0] * len(work[n]) if isinstance(work[n], list) else -99.0
+        diffs = compare_container(ip, ref, False)
+        if diffs:
+            kind, msg, exp, obs = diffs[0]
+            return [(f"add_individual_parameters|{kind}|the caller re-binds keys of the dictionary it passed", msg, exp, obs)], "alias:changed"
+        return [], "alias:independent copies"
     ip = IP()
     ref = new_ref([], names, [tuple(s) for s in shapes])
     ids_before = [f"p{k}" for k in range(case["before"])]
